@@ -20,6 +20,8 @@ FIXED = [
     ('fp', ('bin', 'L', 'L')),
     ('fp', ('q', 1, ('bin', 'L', 'L'))),
     ('q', 1, ('fp', 'L')),
+    ('fp', ('q', 2, 'L')),
+    ('fp', ('bin', 'L', ('q', 1, 'L'))),
     ('fp', ('fp', 'L')),
     ('fp', ('not', ('not', 'L'))),
     ('fp', ('ite', 'L', 'L', 'L')),
